@@ -98,3 +98,13 @@ try:
 except montepy.errors.NumberConflictError:
     pass
 report("leaf.divider = s refused by cell.surfaces (number conflict) but the geometry uses s", c.geometry.left.divider is s1x and not has(c.surfaces, s1x))
+# (14) after reading, cell.surfaces is not linked to the problem (it is for a Cell() appended to a problem)
+p = read(); c = p.cells[1]; s9 = surf(9, 9.0); c.geometry = c.geometry & +s9
+report("new surface put into the geometry of a cell that was read: surface.cells is empty", [x.number for x in s9.cells] != [1])
+# (15) a failing second update_pointers (material renumbered) leaves the cell without its dividers
+p = read(); p.materials[1].number = 7
+try:
+    p.remove_duplicate_surfaces(1e-9)
+except montepy.errors.BrokenObjectLinkError:
+    pass
+report("remove_duplicate_surfaces failing on a renumbered material empties cell.surfaces", len(p.cells[1].surfaces) != 2)
